@@ -1,6 +1,6 @@
 ---------------------------- MODULE FoParseStateMC ----------------------------
 (* a small abstract package: 2 types (one group with forward references), 4 lets; every definition alone needs < Limit *)
-EXTENDS FoParseState
+EXTENDS FoParseState, TLC
 MCDefs == {"T1", "T2", "f", "g", "h", "k"}
 MCDeps == [d \in MCDefs |-> CASE d = "T2" -> {"T1"} [] d = "g" -> {"f", "T2"} [] d = "h" -> {"g", "k"} [] OTHER -> {}]
 MCNeedTva == [d \in MCDefs |-> IF d \in {"T1", "T2"} THEN 0 ELSE 3]
